@@ -79,31 +79,31 @@ const (
 // Parser is the reference automaton. Feed may be called with arbitrary
 // fragments; the result does not depend on fragmentation.
 type Parser struct {
-	st      vtState
-	inter   []byte
-	params  []byte
-	data    []rune
-	final   byte
-	start   int  // offset where the current sequence/string began
+	st           vtState
+	inter        []byte
+	params       []byte
+	data         []rune
+	final        byte
+	start        int  // offset where the current sequence/string began
 	stFromString bool // the pending ESC ended a control string: a following '\' is the ST
-	off     int
-	pend    []byte // undecoded tail (incomplete UTF-8)
-	out     []Item
-	dcsInter  []byte
-	dcsParams []byte
-	dcsFinal  byte
+	off          int
+	pend         []byte // undecoded tail (incomplete UTF-8)
+	out          []Item
+	dcsInter     []byte
+	dcsParams    []byte
+	dcsFinal     byte
 	// Sink, when set, receives items as they complete instead of Feed
 	// returning them.
 	Sink      func(Item)
 	capture   bool
-	lastESC   bool  // the most recent byte was ESC
-	strBytes  int   // bytes consumed by the current control-string state
-	heldEmpty bool  // the held string consumed no byte in its string state
+	lastESC   bool // the most recent byte was ESC
+	strBytes  int  // bytes consumed by the current control-string state
+	heldEmpty bool // the held string consumed no byte in its string state
 	// KnownEmptyStringST enables the listed known finding "the ST of an
 	// empty control string is delivered as ESC \\".
 	KnownEmptyStringST bool
-	held      *Item // control string ended by ESC, waiting to learn whether it was ST
-	stMaybe   bool  // ESC-from-string followed by a C0: whether a later '\' still counts as ST is open
+	held               *Item // control string ended by ESC, waiting to learn whether it was ST
+	stMaybe            bool  // ESC-from-string followed by a C0: whether a later '\' still counts as ST is open
 }
 
 func NewParser() *Parser { return &Parser{} }
